@@ -267,6 +267,11 @@ impl Run {
                 self.w.credit(&a, &d, ju(&call, "x"));
                 TxOut { ok: true, ..Default::default() }
             }
+            "ibc_set_next" => {
+                // sequence numbers are per channel: the counter of the channel now in use
+                self.w.ibc_next = ju(&call, "n") as u64;
+                TxOut { ok: true, ..Default::default() }
+            }
             "nat_fund" => {
                 let a = self.ad(&jstr(&call, "a"));
                 *self.w.nat_bal.entry(a).or_insert(0) += ju(&call, "x");
